@@ -1,9 +1,11 @@
 package racework
 
-// Concurrent workload over the public API, meant to be run under the race
-// detector (`go test -race`).  Used by the C17 check only to attach a
-// concrete replay when the lock-discipline table stops checking; it never
-// decides the property.
+// Concurrent workload over the public API, run under the race detector
+// (`go test -race`) by every C17 check.  The proof and the regenerated access
+// table decide the lock-protected fields; this workload is the search for a
+// concrete race anywhere else (published slices, the deferred-sort ticket
+// protocol, segment buffers).  A reported race is a real race in the code
+// under test; silence proves nothing and is not counted as an obligation.
 
 import (
 	"fmt"
